@@ -305,7 +305,8 @@ def drv_pad(doc, args, inst):
         value = 3.0
     if value == 0.0 and 'outside' in doc.get('obligation', ''):
         value = 3.0
-    for seed in range(2):
+    # the model's value first, then values that single precision cannot represent
+    for seed, value in enumerate([value, value, 0.3, -1.7]):
         x = build(inst, args['x'], 10 + seed)
         sx = snapshot(x)
         d = len(x.N)
@@ -358,7 +359,7 @@ def drv_pad(doc, args, inst):
         rf = r.full()
         if list(rf.shape) != list(ref.shape):
             msgs.append('pad shape %s vs dense %s' % (list(rf.shape), list(ref.shape)))
-        elif not relerr(rf, ref) < 1e-9:
+        elif not relerr(rf, ref) < 1e-9 or (rf.dtype in (tn.float64, tn.complex128) and float((rf - ref).abs().max()) > 1e-11 * max(1.0, float(ref.abs().max()))):
             msgs.append('pad(%s, %s, value=%s) differs from dense constant padding: max abs err %.3g' % (descr(x), padding, value, float((rf - ref).abs().max())))
         if not unchanged(x, sx):
             msgs.append('operand modified by pad')
@@ -374,7 +375,7 @@ def drv_mprod(doc, args, inst):
         sx = snapshot(x)
         modes = args['modes']
         L = [clampi(l) for l in inst['L']]
-        Fs = [tn.randn([L[j], x.N[m]], dtype=tn.float64) for j, m in enumerate(modes)]
+        Fs = [tn.randn([L[j], x.N[m]], dtype=tn.float64).to(x.cores[0].dtype) for j, m in enumerate(modes)]
         try:
             r = x.mprod(Fs[0], modes[0]) if args['form'] == 'int' else x.mprod(Fs, list(modes))
         except Exception as e:
@@ -385,7 +386,7 @@ def drv_mprod(doc, args, inst):
         rf = r.full()
         if list(rf.shape) != list(ref.shape):
             msgs.append('mprod shape %s vs dense %s' % (list(rf.shape), list(ref.shape)))
-        elif not relerr(rf, ref) < 1e-9:
+        elif not relerr(rf, ref) < (1e-4 if rf.dtype in (tn.float32, tn.complex64) else 1e-9):
             msgs.append('mprod value differs (rel.err %.2e) x=%s modes=%s L=%s' % (relerr(rf, ref), descr(x), modes, L))
         if not unchanged(x, sx):
             msgs.append('operand modified by mprod')
@@ -684,7 +685,8 @@ def drv_copies(doc, args, inst):
     f = x.full()
     try:
         r = {'clone': lambda: x.clone(), 'detach': lambda: x.detach(), 'cpu': lambda: x.cpu(), 'to_dtype': lambda: x.to(dtype=tn.float32),
-             'to_none': lambda: x.to(), 'numpy': lambda: x.numpy()}[op]()
+             'to_none': lambda: x.to(), 'numpy': lambda: x.numpy(), 'to_device': lambda: x.to(device=tn.device('cpu')),
+             'to_both': lambda: x.to(device=tn.device('cpu'), dtype=tn.float32), 'to_positional': lambda: x.to(tn.device('cpu'), tn.float32)}[op]()
     except Exception as e:
         return ['%s raises %s: %s' % (op, type(e).__name__, str(e)[:150])]
     if op == 'numpy':
@@ -694,10 +696,10 @@ def drv_copies(doc, args, inst):
     we = wf_errors(r)
     if we:
         msgs.append('not well formed: %s' % we)
-    if not relerr(r.full(), f) < (1e-5 if op == 'to_dtype' else 1e-12):
+    if not relerr(r.full(), f) < (1e-5 if op in ('to_dtype', 'to_both', 'to_positional') else 1e-12):
         msgs.append('%s changed the value' % op)
-    if op == 'to_dtype' and any(c.dtype != tn.float32 for c in r.cores):
-        msgs.append('to(dtype=float32) did not convert')
+    if op in ('to_dtype', 'to_both', 'to_positional') and any(c.dtype != tn.float32 for c in r.cores):
+        msgs.append('%s: to(..., dtype=float32) did not convert (core dtypes %s)' % (op, sorted(set(str(c.dtype) for c in r.cores))))
     if op == 'clone' and any(a.data_ptr() == b.data_ptr() for a, b in zip(r.cores, x.cores)):
         msgs.append('clone shares storage with the original')
     return msgs
